@@ -18,6 +18,9 @@ func runSpecial(name string, seed uint64, cases, from int, out func(cmd, obs J),
 	case "rt":
 		runRtProfile(seed, cases, out, stats)
 		return true
+	case "rtentry":
+		runRtEntryProfile(seed, cases, out, stats)
+		return true
 	case "rtrefuse":
 		runRtRefuseProfile(seed, cases, out, stats)
 		return true
